@@ -1,5 +1,9 @@
 (* C06 — a variable path addresses the same variable everywhere.
-   Statements only; every proof is `exact <lemma of PathsProofs>`. *)
+   Statements only; every proof is `exact <lemma of PathsProofs>`.
+   Scope (independent review, DESIGN.md section 12): proved are path resolution (get_nodes = path_denotation) and the output
+   stage of run() GIVEN a layout.  `inputs` and `update_var` are not modelled in Paths: C07 has its own hand model
+   Values.get_nodes (heap of objects, fuel, no var filter, option instead of exception classes) and no equivalence lemma links
+   it to Paths.get_nodes_gen — that both follow the same code is tied by their separate correspondence runs only. *)
 From Coq Require Import List String Bool Arith Permutation.
 From PV Require Import Paths PathsProofs.
 Import ListNotations.
@@ -118,8 +122,11 @@ Theorem C06_run_returns_before_fix : forall t L U f reqs, f <> ListFormOld ->
   run_columns_gen nofix t L f reqs = Ok (map (col_of L) (spec_columns t U f reqs)).
 Proof. exact run_columns_spec_before. Qed.
 Print Assumptions C06_run_returns_before_fix.
-(* the index map of apply() is injective (C04's theorem; a hypothesis here): two different requested units are read
-   from two different state slots, so no column can carry another unit's trajectory *)
+(* NOT a result of its own (independent review): this is the contrapositive of its own hypothesis — IF the index map
+   `pos` is injective THEN two different requested units have different slots.  Injectivity of the real layout is C04's
+   business; no theorem here or there connects Vectorize.compile to a Paths.layout: the layout, and with it the "right"
+   slot `pos` (built from the Impl's relabel / vidx / f2b / svi), is a hypothesis of the whole output stage, tied to the
+   code only by the correspondence run (the layout is read from a real compilation). *)
 Theorem C06_distinct_units_distinct_slots : forall L,
   (forall v j v' j' k, pos L v j = Some k -> pos L v' j' = Some k -> v = v' /\ j = j') ->
   forall v j v' j' k k', pos L v j = Some k -> pos L v' j' = Some k' -> (v, j) <> (v', j') -> k <> k'.
@@ -191,7 +198,11 @@ Example C06_nonvacuous : wfb nv_tree = true /\ resolvable nv_tree ["all"; "A"] =
 Proof. exact nonvacuous. Qed.
 Print Assumptions C06_nonvacuous.
 
-(* paths inside edges: an EdgeTemplate input mapped to a node variable by path reads the variable that path names *)
+(* NOT a result of its own (independent review): congruence of the helper `edge_deriv`.  The hypothesis assumes
+   `read_slot L row s = val s` for every path of every edge, i.e. exactly "the path reads the variable it names"; the lemma
+   only transports that through the coupling formula.  That the real compilation resolves source, target and path-mapped
+   extra source of an edge through the same maps as an output is established by the third correspondence stream (edge),
+   not by a theorem. *)
 Theorem C06_edge_paths_same_variable : forall (V : Type) (vadd vmul : V -> V -> V) (vzero : V) L row (val : path -> V) es tv,
   (forall e, In e es -> let '(s, t, w, r) := e in read_slot V vzero L row s = val s /\ read_slot V vzero L row r = val r) ->
   edge_deriv_impl V vadd vmul vzero L row es tv = edge_deriv_spec V vadd vmul vzero val es tv.
